@@ -14,8 +14,10 @@ import (
 	"verifharness/enc"
 	"verifharness/fakeapi"
 	. "verifharness/kobj"
+	"verifharness/qlog"
 	"verifharness/sched"
 
+	logutil "github.com/boz/go-logutil"
 	"github.com/boz/kcache"
 	tdaemonset "github.com/boz/kcache/types/daemonset"
 	tdeployment "github.com/boz/kcache/types/deployment"
@@ -475,7 +477,7 @@ func runC20(c *Ctx) {
 		}
 	}
 	restCheck(c)
-	c.Rep.Rule = "all 12 typed packages: the same seeded scenario (objects of the package's type created, changed, deleted; objects of ANOTHER type injected on the watch) run on a typed controller (BuildController) and on an untyped kcache controller side by side against one fake API server in virtual time: typed cache / filtered-subscription cache / subscription events / filtered-subscription events / monitor callbacks = the untyped ones restricted to the type (foreign objects skipped, never nil, same order), Get, readiness, Close; the typed cache vs the extracted typed_list; per package an initially empty collection (typed monitor callbacks = untyped ones, OnInitialize with nothing included) and a burst of 250 events nobody reads (typed subscription delivers what the untyped one delivers; Events() closed after Close). Per package the rest of the typed API as a tree next to the same untyped tree (Clone, CloneWithFilter, CloneForFilter, SubscribeForFilter, Refilter on each, a unitary handler through ToUnitary, typed Ready/Close/Done): readiness, caches, event sequences and callbacks equal the untyped twin restricted to the type at every barrier; a closed typed node is done, nothing above it stops, calls on stopped typed nodes fail. Source level: harness/cmd/gentokens tokenizes template and generated files and the Coq kernel checks instantiate(template) = generated for the 12 packages and executed-join-template = generated join for the 8 joins (20 per-run obligations). REST: every typed NewClient against a loopback HTTP API server, with and without namespace: path and query of list and watch. Non-trivial = every (package, scenario)."
+	c.Rep.Rule = "all 12 typed packages: the same seeded scenario (objects of the package's type created, changed, deleted; objects of ANOTHER type injected on the watch) run on a typed controller (BuildController) and on an untyped kcache controller side by side against one fake API server in virtual time: typed cache / filtered-subscription cache / subscription events / filtered-subscription events / monitor callbacks = the untyped ones restricted to the type (foreign objects skipped, never nil, same order), Get, readiness, Close; the typed cache vs the extracted typed_list; per package an initially empty collection (typed monitor callbacks = untyped ones, OnInitialize with nothing included) and a burst of 250 events nobody reads (typed subscription delivers what the untyped one delivers; Events() closed after Close). Per package the rest of the typed API as a tree next to the same untyped tree (Clone, CloneWithFilter, CloneForFilter, SubscribeForFilter, Refilter on each, a unitary handler through ToUnitary, typed Ready/Close/Done): readiness, caches, event sequences and callbacks equal the untyped twin restricted to the type at every barrier; a closed typed node is done, nothing above it stops, calls on stopped typed nodes fail. Source level: harness/cmd/gentokens tokenizes template and generated files and the Coq kernel checks instantiate(template) = generated for the 12 packages and executed-join-template = generated join for the 8 joins (20 per-run obligations). REST: every typed NewController(ctx, log, clientset, ns) against a loopback HTTP API server (ready after the empty first list, lists and watches its own resource from the list's version, done after Close), and every typed NewClient against the same server, with and without namespace: path and query of list and watch. Non-trivial = every (package, scenario)."
 	c.Rep.Stats["runs"] = runs
 }
 
@@ -524,20 +526,21 @@ func restCheck(c *Ctx) {
 		prefix string // API group/version prefix
 		res    string
 		namespaced bool
+		mkc    ctlMaker
 	}
 	table := []ent{
-		{"pod", tpod.NewClient, "/api/v1", "pods", true},
-		{"service", tservice.NewClient, "/api/v1", "services", true},
-		{"secret", tsecret.NewClient, "/api/v1", "secrets", true},
-		{"node", tnode.NewClient, "/api/v1", "nodes", true},
-		{"event", tevent.NewClient, "/api/v1", "events", true},
-		{"replicationcontroller", treplicationcontroller.NewClient, "/api/v1", "replicationcontrollers", true},
-		{"ingress", tingress.NewClient, "/apis/networking.k8s.io/v1beta1", "ingresses", true},
-		{"job", tjob.NewClient, "/apis/batch/v1", "jobs", true},
-		{"daemonset", tdaemonset.NewClient, "/apis/apps/v1", "daemonsets", true},
-		{"deployment", tdeployment.NewClient, "/apis/apps/v1", "deployments", true},
-		{"replicaset", treplicaset.NewClient, "/apis/apps/v1", "replicasets", true},
-		{"statefulset", tstatefulset.NewClient, "/apis/apps/v1", "statefulsets", true},
+		{"pod", tpod.NewClient, "/api/v1", "pods", true, ctlOps(tpod.NewController)},
+		{"service", tservice.NewClient, "/api/v1", "services", true, ctlOps(tservice.NewController)},
+		{"secret", tsecret.NewClient, "/api/v1", "secrets", true, ctlOps(tsecret.NewController)},
+		{"node", tnode.NewClient, "/api/v1", "nodes", true, ctlOps(tnode.NewController)},
+		{"event", tevent.NewClient, "/api/v1", "events", true, ctlOps(tevent.NewController)},
+		{"replicationcontroller", treplicationcontroller.NewClient, "/api/v1", "replicationcontrollers", true, ctlOps(treplicationcontroller.NewController)},
+		{"ingress", tingress.NewClient, "/apis/networking.k8s.io/v1beta1", "ingresses", true, ctlOps(tingress.NewController)},
+		{"job", tjob.NewClient, "/apis/batch/v1", "jobs", true, ctlOps(tjob.NewController)},
+		{"daemonset", tdaemonset.NewClient, "/apis/apps/v1", "daemonsets", true, ctlOps(tdaemonset.NewController)},
+		{"deployment", tdeployment.NewClient, "/apis/apps/v1", "deployments", true, ctlOps(tdeployment.NewController)},
+		{"replicaset", treplicaset.NewClient, "/apis/apps/v1", "replicasets", true, ctlOps(treplicaset.NewController)},
+		{"statefulset", tstatefulset.NewClient, "/apis/apps/v1", "statefulsets", true, ctlOps(tstatefulset.NewController)},
 	}
 	var rows []string
 	for _, e := range table {
@@ -583,6 +586,50 @@ func restCheck(c *Ctx) {
 			}
 			wantList := e.prefix + nsPart + "/" + e.res
 			wantWatch := e.prefix + "/watch" + nsPart + "/" + e.res
+			// NewController(ctx, log, clientset, ns): the typed controller on the
+			// typed client of its own resource — ready after the (empty) first
+			// list, listing and watching the same paths, and it shuts down
+			{
+				mu.Lock()
+				reqs = nil
+				mu.Unlock()
+				cctx, ccancel := context.WithCancel(context.Background())
+				ready, done, closeFn, err := e.mkc(cctx, qlog.Silent(), cs, ns)
+				if err != nil {
+					c.Violation("", fmt.Sprintf("types/%s NewController (namespace %q) failed: %v", e.name, ns, err), map[string]interface{}{"package": e.name, "namespace": ns})
+				} else {
+					select {
+					case <-ready:
+					case <-time.After(5 * time.Second):
+						c.Violation("", fmt.Sprintf("types/%s NewController (namespace %q): not ready 5 s after an empty first list", e.name, ns), map[string]interface{}{"package": e.name, "namespace": ns})
+					}
+					var creqs []restReq
+					for k := 0; k < 100; k++ { // the first watch connect follows the list
+						mu.Lock()
+						creqs = append([]restReq(nil), reqs...)
+						mu.Unlock()
+						if len(creqs) >= 2 {
+							break
+						}
+						time.Sleep(10 * time.Millisecond)
+					}
+					if len(creqs) < 2 || creqs[0].path != wantList || creqs[1].path != wantWatch || !strings.Contains(creqs[1].query, "resourceVersion=1") {
+						c.Violation("", fmt.Sprintf("types/%s NewController (namespace %q) issued %v, expected a list of %s and then a watch of %s from version 1", e.name, ns, creqs, wantList, wantWatch),
+							map[string]interface{}{"package": e.name, "namespace": ns, "requests": fmt.Sprint(creqs)})
+					}
+					closeFn()
+					select {
+					case <-done:
+					case <-time.After(5 * time.Second):
+						c.Violation("", fmt.Sprintf("types/%s NewController (namespace %q): not done 5 s after Close", e.name, ns), map[string]interface{}{"package": e.name, "namespace": ns})
+					}
+				}
+				ccancel()
+				c.Rep.Evaluations++
+				mu.Lock()
+				reqs = nil
+				mu.Unlock()
+			}
 			replay := map[string]interface{}{"package": e.name, "namespace": ns, "requests": fmt.Sprint(got), "list_error": fmt.Sprint(lerr), "watch_error": fmt.Sprint(werr)}
 			if len(got) != 6 {
 				c.Violation("", fmt.Sprintf("types/%s client (namespace %q) issued %d requests for three lists and three watches", e.name, ns, len(got)), replay)
@@ -609,5 +656,22 @@ func restCheck(c *Ctx) {
 	c.Rep.Stats["rest_rows"] = len(rows)
 	if len(rows) > 1 {
 		c.Sample(map[string]interface{}{"rest": rows[1]})
+	}
+}
+
+type ctlMaker func(ctx context.Context, log logutil.Log, cs kubernetes.Interface, ns string) (ready, done <-chan struct{}, closeFn func(), err error)
+
+// ctlOps adapts the NewController of a typed package (each returns its own Controller type).
+func ctlOps[C interface {
+	Ready() <-chan struct{}
+	Done() <-chan struct{}
+	Close()
+}](f func(context.Context, logutil.Log, kubernetes.Interface, string) (C, error)) ctlMaker {
+	return func(ctx context.Context, log logutil.Log, cs kubernetes.Interface, ns string) (<-chan struct{}, <-chan struct{}, func(), error) {
+		c, err := f(ctx, log, cs, ns)
+		if err != nil {
+			return nil, nil, nil, err
+		}
+		return c.Ready(), c.Done(), c.Close, nil
 	}
 }
